@@ -29,3 +29,35 @@ claim("C17",
       "up to length 3 (4 thorough) plus random longer ones, with an independent direct matcher as monitor.",
       TB + "Go regexp semantics on the fragment are modelled by Glob.re_parse/re_match; ASCII domain.",
       "Coq theorem + differential execution of extracted model vs glob.Compile")
+
+CONN_TB = TB + ("The connection model (Conn.serve: receive loop, dispatcher, ~70 executors, reply writer, span events) is parameterised by an ARBITRARY application handler; "
+                "it is compared with the real receive loop (VerifServeConn, build tag verif) through a scripted net.Conn, a recording handler double and a tracer double. ")
+claim("C03",
+      "Theorems, for every application handler: (1) for every sequence of well-formed RESP values sent as requests (any command, any arguments) the connection writes exactly one "
+      "frame per processed request, the i-th being the reply to the i-th request, and all requests are processed unless an earlier one ended the loop with QUIT; (2) for EVERY input "
+      "byte string the loop terminates without panic; (3) the trace after the first k bytes of a pipeline equals the trace of the stream that ends after the last complete request, "
+      "so replies never wait for later input; (4) QUIT in any letter case: +OK, loop ends, no handler call; (5) nothing behind QUIT is executed or answered; (6) a handler error "
+      "becomes an error reply and the loop continues. Correspondence: every registered command x systematic argument shapes, random pipelines of 1..8 requests (incl. requests with "
+      ">1024 elements), whole / byte-by-byte / k-way / pipelined delivery; monitors: reply count, each reply written when exactly its request's bytes were delivered, watchdog.",
+      CONN_TB + "Liveness is judged at scripted blocking reads; goroutine scheduling below that is the Go runtime's.",
+      "Coq theorems over the connection model (all handlers) + differential execution against the real connection loop")
+claim("C04",
+      "Theorems, for every handler (any message type and payload, nil, error text, message+error), every client BYTE stream and every framework error text: everything written is a "
+      "list of frames each in the RESP2 grammar resp2 (written independently of the serializer: no CR/LF inside status/error/integer lines, bulk prefix = payload length, array "
+      "prefix = element count), one per loop iteration; uninterpretable requests (non-array, empty array, null / integer / error command name) and handlers returning nothing get an "
+      "error frame. Correspondence: raw output bytes vs model and an independent strict RESP2 decoder, every handler-result shape x pass-through and post-processing commands, forged "
+      "frames in every client-controlled position, and a length sweep 0..1100 of CR/LF-carrying line payloads.",
+      CONN_TB + "A handler-built integer reply with a non-numeric payload is framed but not a RESP integer (reported separately, outside the theorem).",
+      "Coq theorem (writes are frames of an independent RESP2 grammar, all handlers and inputs) + differential execution with strict decoder monitor")
+claim("C11",
+      "Theorems: a strict prefix of a client request never parses to a value (prefix-freedom under the parser's end-of-stream leniency); for every pipeline, handler and EVERY cut "
+      "offset the whole trace (calls with arguments, replies, spans, deregistration, close) equals that of the stream ending after the last complete request; the connection is "
+      "deregistered and closed. Correspondence: every byte offset of generated pipelines as end of stream with half-close and full close: calls, replies, Close seen, registry empty, loop returned.",
+      CONN_TB + "Domain: requests are arrays of non-null bulk strings (what clients send).",
+      "Coq theorems (prefix-freedom, cut-anywhere trace equality) + exhaustive cut enumeration against the real loop")
+claim("C20",
+      "Theorem, for every handler, configuration, TLS admission outcome and EVERY input byte string: the span events of the connection trace are balanced (one root per iteration "
+      "finished once and last, children only inside a root and finished innermost-first, nothing left open), via a structure theorem: trace = register, complete iterations, optional "
+      "closing iteration, deregister, close. Correspondence: a tracer double records the real span events for pipelines mixing every outcome x every ending; the same balance predicate runs as a monitor.",
+      CONN_TB + "The tracer library itself (go-tracing) is replaced by a double.",
+      "Coq theorem (balanced span trace for all inputs and handlers) + differential execution with tracer double")
